@@ -79,6 +79,10 @@ class PandasMaterializer(FormulaMaterializer):
     ) -> Any:
         if drop_rows:
             values = drop_nulls(values, indices=drop_rows)
+        if getattr(getattr(values, "dtype", None), "kind", None) in ("i", "u", "b"):
+            # Products and scalings of columns are taken in the dtype of the
+            # columns: narrow integer types would wrap around.
+            values = values.astype(numpy.float64)
         if spec.output == "sparse":
             return spsparse.csc_matrix(
                 numpy.array(values).reshape((values.shape[0], 1))
